@@ -65,7 +65,7 @@ def constants_text(NX, sp, fix, trunc='all'):
         S(sp['fmt']))
     s += 'BodyCodes = %s SplitSet = %s ExtSet = %s TrailerSet = %s TruncMode = "%s" SCloseSet = %s\n' % (
         S(sp['bodies']), S(sp['split']), S(sp['ext']), S(sp['tr']), trunc, S(sp['sclose']))
-    s += 'FixTE = %s FixNoBody = %s Fix1xx = %s FixBadCL = %s\n' % tuple(str(bool(f)).upper() for f in fix)
+    s += 'FixTE = %s FixNoBody = %s Fix1xx = %s FixBadCL = %s FixTrailer = %s\n' % tuple(str(bool(f)).upper() for f in fix)
     return s
 
 
@@ -106,7 +106,13 @@ def probe_variant():
     fix_1xx = (o == 'ok' and dl == b'abc')
     o, dl, st = one(dict(base, cl='nonnum'))
     fix_cl = (o != 'ok')
-    return (fix_te, fix_nb, fix_1xx, fix_cl)
+    cm = M.build_cmsg(dict(base, te='chunked', tr=True))
+    cm['trunc'] = len(M.full(cm)) - 6          # ... 0 CR LF 'T' | ':v' CR LF CR LF
+    cm['sclose'] = True
+    r = Run([{'cm': cm, 'pieces': [cm['trunc']]}])
+    r.execute()
+    fix_tr = [e for e in r.ev if e['e'] == 'done'][0]['out'] != 'other_error'
+    return (fix_te, fix_nb, fix_1xx, fix_cl, fix_tr)
 
 
 # ------------------------------------------------------------------ (a) TLC-generated behaviours
@@ -275,7 +281,7 @@ def run(chk):
     warc = pid == 'C04'
     rng = random.Random(chk.seed * 7919 + (4 if warc else 8))
     fix = probe_variant()
-    chk.extra['code_variant'] = dict(zip(['FixTE', 'FixNoBody', 'Fix1xx', 'FixBadCL'], fix))
+    chk.extra['code_variant'] = dict(zip(['FixTE', 'FixNoBody', 'Fix1xx', 'FixBadCL', 'FixTrailer'], fix))
     invs = C04_INVS if warc else C08_INVS
 
     # ---------------- 1. design checks (started now, collected at the end; they run beside the executions)
